@@ -76,10 +76,14 @@ func (p *C09) enumFlags(seed uint64) {
 		{[]string{"info", "attr", "list"}, ""}, {[]string{"info", "attr", "describe", "-t", "Minor7", "-r", "C#"}, ""},
 		{[]string{"info", "chord", "list"}, ""}, {[]string{"info", "chord", "describe", "-t", "C_7"}, ""},
 		{[]string{"info", "key", "list"}, ""}, {[]string{"info", "key", "describe", "--key", "A"}, ""}, {[]string{"info", "key", "conv", "--key", "C", "-c", "ps"}, ""},
+		{[]string{"info", "key", "conv", "--key", "B", "-c", "ps"}, ""}, {[]string{"info", "key", "conv", "--key", "D#m", "-c", "ps"}, ""},
 		{[]string{"gen", "attr"}, ""},
 	}
 	values := append([]string{}, flagValues...)
-	values = append(values, "32767", "32768", "40000", "128", "127", "-0", "00", "1.5", "1,2", "a,b", "cmt", "cmt,cmt", "ép", "p→d", "C#m", "Cb", "B#", "E♭", "c", "8/8", "3/0", "256/4", "4/256")
+	values = append(values, "32767", "32768", "40000", "128", "127", "-0", "00", "1.5", "1,2", "a,b", "cmt", "cmt,cmt", "ép", "p→d", "C#m", "Cb", "B#", "E♭", "c", "8/8", "3/0", "256/4", "4/256",
+		"C#b", "Cb#", "C##", "Cbb", "C#b#", "Cx", "C♯", "C♭", "#", "b", "#C", "CC", "C#C",
+		strings.Repeat("ds", 30)+"x", strings.Repeat("r", 60), strings.Repeat("d", 13)+"x", strings.Repeat("sd", 25)+"?", strings.Repeat("pr", 40),
+		"65535", "131072", "196608", "4294967296", "9223372036854775807", "9223372036854775808", "18446744073709551615", "-9223372036854775808")
 	for _, cs := range cmds {
 		cmd := CommandOf(cs.argv)
 		for _, f := range flagSpecs {
@@ -350,7 +354,7 @@ func dictFault(r *model.Rand, b *Base, chord bool) string {
 		b.Files[path] = &simrt.FileSpec{OpenErr: "EISDIR"}
 		return path
 	case 3:
-		data = "\x00\x01garbage: [unclosed\n\t- x"
+		data = model.Pick(r, []string{"\x00\x01garbage: [unclosed\n\t- x", "", "  \n\n", "# only a comment\n", "---\n", "[]\n", "null\n", "~\n", "---\n...\n", "- \n", "-\n", "{}\n", "\ufeff"})
 	case 4: // dangling attribute
 		data = "- name: Bad\n  meta:\n    display: bad\n  attributes:\n    - NoSuchAttribute\n"
 	case 5: // dangling extends
